@@ -38,3 +38,55 @@ func EnableCluster(f *simrt.Tape, cfg simcluster.Config) *simcluster.Backend {
 }
 
 func DisableCluster() { cluster.SimBackendFor = nil }
+
+// ---- C34: the real membership-event machinery of internal/cluster fed with scripted notifications
+
+// EventNode is one real *cluster started over the simulated backend.
+type EventNode struct {
+	C    cluster.Cluster
+	B    *simcluster.Backend
+	Addr string
+}
+
+// EmittedEvent is a cluster event read from Events().
+type EmittedEvent struct {
+	Type string // NodeJoined | NodeLeft | LeaderChanged
+	Addr string
+}
+
+// NewEventNode starts a real cluster engine for one node on the shared simulated backend.
+func NewEventNode(ctx context.Context, b *simcluster.Backend, host string, peersPort int) (*EventNode, error) {
+	node := &discovery.Node{Name: "n", Host: host, DiscoveryPort: peersPort + 1000, PeersPort: peersPort, RemotingPort: peersPort + 2000}
+	c := cluster.New("verif", nil, node)
+	if err := c.Start(ctx); err != nil {
+		return nil, err
+	}
+	return &EventNode{C: c, B: b, Addr: node.PeersAddress()}, nil
+}
+
+// Drain reads, without blocking, every event emitted so far.
+func (n *EventNode) Drain() []EmittedEvent {
+	var out []EmittedEvent
+	for {
+		select {
+		case e, ok := <-n.C.Events():
+			if !ok || e == nil {
+				return out
+			}
+			ev := EmittedEvent{Type: e.Type.String()}
+			switch p := e.Payload.(type) {
+			case *cluster.NodeJoinedEvent:
+				ev.Addr = p.Address
+			case *cluster.NodeLeftEvent:
+				ev.Addr = p.Address
+			case *cluster.LeaderChangedEvent:
+				ev.Addr = p.Address
+			}
+			out = append(out, ev)
+		default:
+			return out
+		}
+	}
+}
+
+func (n *EventNode) Stop(ctx context.Context) error { return n.C.Stop(ctx) }
